@@ -514,14 +514,26 @@ pub fn confirm_in_fresh_process(ctx: &Ctx, path: &Path, v: &Violation) -> bool {
     // deterministic replays: allow a few attempts
     let attempts = if v.class.starts_with("real_binary") { 4 } else { 1 };
     for _ in 0..attempts {
-        if confirm_once(ctx, path, v) {
+        if confirm_once(ctx, path, v, true) {
             return true;
         }
+    }
+    // An engine whose behaviour depends on something outside the simulator's seams (the
+    // per-process hasher state of std's HashMap is the one source left outside) cannot
+    // replay with the same event log. If two more fresh processes both show the same
+    // violation class, it is reported all the same, and said so.
+    if confirm_once(ctx, path, v, false) && confirm_once(ctx, path, v, false) {
+        eprintln!(
+            "note: {} reproduces class {} in fresh processes, but with different event logs from run to run: the engine's behaviour depends on state outside the simulator's seams",
+            path.display(),
+            v.class
+        );
+        return true;
     }
     false
 }
 
-fn confirm_once(ctx: &Ctx, path: &Path, v: &Violation) -> bool {
+fn confirm_once(ctx: &Ctx, path: &Path, v: &Violation, exact: bool) -> bool {
     let exe = std::env::current_exe().expect("current_exe");
     let out = std::process::Command::new(exe)
         .arg("check")
@@ -537,7 +549,8 @@ fn confirm_once(ctx: &Ctx, path: &Path, v: &Violation) -> bool {
         "REPLAYED class={} event_log_hash={:016x}",
         v.class, v.log_hash
     );
-    out.status.code() == Some(1) && text.lines().any(|l| l.trim() == want)
+    let want_class = format!("REPLAYED class={} ", v.class);
+    out.status.code() == Some(1) && text.lines().any(|l| if exact { l.trim() == want } else { l.trim_start().starts_with(&want_class) })
 }
 
 /// Standard tail of every check: minimise one violation per class, write replay files,
